@@ -24,6 +24,17 @@ def expected_update(s, a, i, cfg):
     return s1
 
 
+def near(a, b):
+    """the statement is about real numbers: equality up to a few units in the last place (bit-exactness is the
+    business of the co-execution with the model, which reports a broken tie as such)"""
+    return same_float(a, b) or (math.isfinite(a) and math.isfinite(b) and abs(a - b) <= 1e-12 * max(1.0, abs(a), abs(b)))
+
+
+def near_vec(a, b):
+    a, b = list(a), list(b)
+    return len(a) == len(b) and all(near(x, y) for x, y in zip(a, b))
+
+
 def spec_oracle(cfg, r, completed):
     out = []
     if r.exception is not None:
@@ -35,7 +46,7 @@ def spec_oracle(cfg, r, completed):
     s0 = 1.0 if (cfg["kind"] == "rwmh" and cfg["stepmode"] == "vector") else cfg["stepsize"]
     s = s0
     for i in range(min(len(hs), len(exps))):
-        if not same_float(hs[i], s):
+        if not near(hs[i], s):
             out.append(("recorded-step", f"recorded step size {i} is {hs[i]}, the step that generated proposal {i} is {s}"))
             break
         if not same_float(ha[i], exps[i]):
@@ -52,7 +63,7 @@ def spec_oracle(cfg, r, completed):
         for i, sn in enumerate(r.snaps[:completed]):
             z = numpy.array(cfg["zs"][i]).reshape(-1, 1)
             want = common.col(numpy.array(sn["cur_before"]).reshape(-1, 1) + s * nsp * z)
-            if not same_vec(want, sn["proposed"]):
+            if not near_vec(want, sn["proposed"]):
                 out.append(("update-equation", f"proposal {i} was not generated with the step size the update equation gives ({s})"))
                 break
             s = expected_update(s, exps[i], i, cfg)
@@ -60,7 +71,7 @@ def spec_oracle(cfg, r, completed):
         s = s0
         for i in range(completed):
             s = expected_update(s, exps[i], i, cfg)
-        if not same_float(float(numpy.asarray(r.final_step).flatten()[0]), s):
+        if not near(float(numpy.asarray(r.final_step).flatten()[0]), s):
             out.append(("update-equation", f"final step size {r.final_step} differs from the update equation's {s}"))
     return out[:3]
 
@@ -119,7 +130,9 @@ def run(tier, seed):
                 dist["interrupted"] += 1
             if not interrupted and i % 4 == 1:
                 # the sampler object has made an autotuned run before: step size, histories and weights start afresh
-                cfg0 = dict(cfg, P=cfg["t"] * rnd.randint(2, 4), stepsize=cfg["stepsize"] * 2.0)
+                # ... with another learning rate, and sometimes the same number of proposals
+                cfg0 = dict(cfg, P=(cfg["P"] if rnd.random() < 0.5 else cfg["t"] * rnd.randint(2, 4)), stepsize=cfg["stepsize"] * 2.0,
+                            lr=rnd.choice([v for v in (0.55, 0.75, 1.0) if abs(v - cfg["lr"]) > 1e-9]))
                 r0 = sr.run_impl(cfg0, wd, tag="first")
                 n0 = len(r0.snaps)
                 r = sr.run_impl(cfg, wd, reuse=r0)
